@@ -875,7 +875,8 @@ fn main() {
     let (sr_states, sr_expected, sr_disc) = stateright_crosscheck(&alpha, run.pick(3, 4));
     println!("stateright cross-check (double-ended machine): unique states {sr_states} (closed form {sr_expected}), discoveries {sr_disc}");
     let de_violations = total.buckets.keys().filter(|k| k.contains("(double-ended)") && !k.contains("Chunked(") && !k.contains("StringChunked")).count();
-    if sr_states != sr_expected {
+    if sr_disc == 0 && sr_states != sr_expected {
+        // (stateright stops at the first discovery, so the count is only meaningful on a clean run)
         total.error(format!("stateright explored {sr_states} states of the double-ended machine, closed form says {sr_expected}"));
     }
     if (de_violations == 0) != (sr_disc == 0) {
